@@ -108,3 +108,41 @@ def exact_milli(x, tol=1e-9):
     v = float(x) * 1000
     r = round(v)
     return int(r) if abs(v - r) < tol * 1000 else None
+
+
+# ----------------------------------------------------------------------------------------------------------------
+# C08: national summary
+
+
+def run_summary_injected(ns, alpha=0.9):
+    """ns: a NationalSummary scenario (p, b1, b2 per contest in thousandths, w, lhs, rhs, stop, corr, base, nweights).
+    Drives the real get_aggregate_predictions -> get_aggregate_prediction_intervals -> get_national_summary_estimates."""
+    from elexmodel.models.BootstrapElectionModel import BootstrapElectionModelException
+
+    contests = sorted(ns["p"])
+    model = new_model(B=2, national_summary_correlation=bool(ns["corr"]))
+    preds = [ns["p"][c] for c in contests]
+    inject(model, preds, [ns["b1"][c] for c in contests])
+    model.errors_B_2 = np.asarray([ns["b2"][c] for c in contests], dtype=float)
+    r, nr, x = frames(contests)
+    nr["pred_margin"] = np.asarray(preds, dtype=float)
+    agg = ["postal_code"]
+    kw = dict(lhs_called_contests=list(ns["lhs"]), rhs_called_contests=list(ns["rhs"]))
+    model.get_aggregate_predictions(r, nr, x, agg, "margin", **kw)
+    model.get_aggregate_prediction_intervals(r, nr, x, agg, alpha, None, "margin", stop_model_call=list(ns["stop"]), **kw)
+    weights = {c: ns["w"][c] for c in contests}
+    extra = ns["nweights"] - len(contests)
+    for k in range(max(0, extra)):
+        weights[f"zz{k}"] = 1
+    if extra < 0:
+        weights.pop(contests[-1])
+    try:
+        out = model.get_national_summary_estimates(weights, ns["base"], alpha)["margin"]
+    except BootstrapElectionModelException:
+        return {"kind": "error", "pred": 0, "lower": 0, "upper": 0}
+    vals = []
+    for v in out:
+        if abs(v - round(v)) > 1e-9:
+            raise ValueError(f"national summary value not integral with integer weights: {out}")
+        vals.append(int(round(v)))
+    return {"kind": "ok", "pred": vals[0], "lower": vals[1], "upper": vals[2]}
